@@ -35,7 +35,8 @@ ASSUMPTIONS = [
     "estimators called directly, 2e-5 relative for end-to-end Sobol maps (float32 perturbed inputs), 2e-6 absolute for "
     "HSIC scores (float32 Gram matrices); measured worst errors on the unchanged tree: 4e-8, 1.4e-7, 7e-8",
     "explain() output is compared with tf.image.resize(bicubic) of the low-resolution map returned by the explainer's "
-    "estimator on the recorded outputs (staging): max abs difference <= 1e-5",
+    "estimator on the recorded outputs (staging): max abs difference <= 1e-5 * (1 + max |map|) (the explainer feeds float32 "
+    "outputs to the estimator, the recorded ones are float64; measured worst 1.2e-4 on a map of magnitude 1e3)",
     "LatinHypercube(RS) draws are unseeded inside xplique (qmc.LatinHypercube(dimension), no public seed): a replay of "
     "such a case re-draws the design; the draw is an input of the model, so the verdict does not depend on it",
     "HSIC cases are generated with positive scores (the unchanged tree returns NaN when the median output is 0: "
@@ -400,7 +401,7 @@ def run_expl(case):
     queries = np.array(model.queries, dtype=np.float64)
     if queries.shape[0] != total * len(case["xs"]):
         raise AssertionError(f"{queries.shape[0]} model queries for {len(case['xs'])} inputs, expected {total} each")
-    lows, outs, resize_diff = [], [], 0.0
+    lows, outs, resize_diff, resize_scale = [], [], 0.0, 0.0
     for k in range(len(case["xs"])):
         qk = queries[k * total:(k + 1) * total]
         scores = (plain(qk) * ts[k][None, :].astype(np.float64)).sum(-1)
@@ -411,6 +412,7 @@ def run_expl(case):
             raise AssertionError(f"explain() returned a map of shape {out[k].shape}, staged shape {staged.shape}")
         diff = np.abs(staged - got)
         resize_diff = max(resize_diff, float("inf") if np.isnan(diff).any() else float(diff.max()))
+        resize_scale = max(resize_scale, float(np.abs(staged).max()))
         lows.append(f2l(low))
         outs.append([float(v) for v in scores])
     if case["kind"] == "sobol_expl":
@@ -420,7 +422,7 @@ def run_expl(case):
         if any(len(set(o[b * n:(b + 1) * n])) == 1 for o in outs for b in blocks):
             return dict(skip="zero variance of the outputs on a design block", outputs=outs)
     res = dict(masks=rows(masks), masks_shape=list(masks.shape), lows=lows, outputs=outs, out_shape=list(out.shape),
-               resize_diff=resize_diff, x0=baselines(case))
+               resize_diff=resize_diff, resize_scale=resize_scale, x0=baselines(case))
     if case["kind"] == "sobol_expl" and case["est"] == "Glen":
         res["roots"] = [glen_roots(o, n, g * g) for o in outs]
     if case["kind"] == "hsic_expl":
@@ -535,7 +537,8 @@ def term_expl(case, res):
     score = f"(fquad {fam.coq_fquad(case['params'])})"
     masks = cmat(res["masks"])
     xs, ts = cmat(case["xs"]), cmat(case["ts"])
-    ok_resize = core.cbool(res["resize_diff"] <= TOL_RESIZE)
+    # float32 maps: the staged and the returned map may differ by a few ulps of the largest value
+    ok_resize = core.cbool(res["resize_diff"] <= TOL_RESIZE * (1.0 + res["resize_scale"]))
     if case["kind"] == "sobol_expl":
         d = f"({g} * {g})"
         # explainer.masks must be a replicated design: A, B (first 2n rows) then the blocks C_i, values in [0,1]
